@@ -525,6 +525,9 @@ class Interp:
             return r
         if re.fullmatch(r'[A-Z]\w*', rv):
             return Enum(rv)                               # variant of an enum in scope (`use Ordering::*`)
+        m = re.fullmatch(r'((?:copy|move) .+?) as .+ \(PointerCoercion\(Unsize, \w+\)\)', rv)
+        if m:
+            return self.operand(env, m.group(1))           # array / Vec reference to slice reference: same list
         m = re.fullmatch(r'PtrMetadata\((.+)\)', rv)
         if m:
             v = deref(self.operand(env, m.group(1)))
